@@ -184,6 +184,35 @@ class C07Bounded(Bounded):
                 fail("first-error", f"collection {str(ds)[:160]}: strict raises {strict!r}, first collected error is {errs[0]!r}", ["collection"])
         if os.environ.get("C07_DUMP"):
             json.dump(sorted(set(escapes)), open(os.environ["C07_DUMP"], "w"), indent=0)
+        # the same through load_ruleset (files): the first error collected for a file equals the error strict loading raises (type, text, location)
+        import tempfile, shutil, yaml as _yaml
+        from sigma.collection import SigmaCollection
+        broken = {"tag without namespace": {"tags": ["nonamespace"]}, "unknown related type": {"related": [{"id": RULE["id"], "type": "nope"}]}, "invalid regular expression": {"detection": {"sel": {"f|re": "(a"}, "condition": "sel"}},
+                  "infinite number": {"detection": {"sel": {"f|gt": float("inf")}, "condition": "sel"}}, "unknown level": {"level": "bogus"}, "unknown modifier": {"detection": {"sel": {"f|nope": "x"}, "condition": "sel"}},
+                  "bad date": {"date": "2024-13-45"}, "bad id": {"id": "not-a-uuid"}}
+        for label, patch in broken.items():
+            ev += 1
+            nontriv += 1
+            tmpd = tempfile.mkdtemp(prefix="c07_files_")
+            try:
+                doc = {**{k: v for k, v in RULE.items() if k not in ("custom",)}, **patch}
+                open(os.path.join(tmpd, "r.yml"), "w").write(_yaml.safe_dump(doc))
+                try:
+                    SigmaCollection.load_ruleset([tmpd])
+                    strict = None
+                except SigmaError as e:
+                    strict = e
+                except Exception as e:
+                    strict = e
+                try:
+                    col = SigmaCollection.load_ruleset([tmpd], collect_errors=True)
+                    collected = list(col.errors)
+                except Exception as e:
+                    collected = [e]
+                if strict is None and collected or strict is not None and (not collected or not (type(collected[0]) is type(strict) and collected[0] == strict)):
+                    fail("files", f"load_ruleset of a file with {label}: strict loading raises {strict!r}, collecting mode collects {collected[:1]!r} first (must be equal: type, text and location)", [label, "load_ruleset"])
+            finally:
+                shutil.rmtree(tmpd, ignore_errors=True)
         return {"evaluations": ev, "distinct_nontrivial": nontriv, "failures": fails[:30], "failure_counts": seen, "escaping_signatures": len(set(escapes)),
                 "bound": f"5 valid documents x every path x (delete + {len(WRONG)} wrong-typed / out-of-range values); {len(docs_sets)} collection streams", "rule": "distinct (document, path, value); non-trivial = strict loading raises",
                 "samples": samples or [{"document": "RULE", "mutation": "level = 'bogus'"}], "exhaustive": tier != "quick"}
